@@ -329,6 +329,8 @@ class _Target:
                     elif (role + '_precision') in summ[lname]:
                         p = summ[lname][role + '_precision']
                         rep.append([o.prec.index(int(x)) for x in (p if isinstance(p, list) else [p])])
+            if o.cls == 'sn':
+                rep.append([int(m.best_layer_index())])      # the index export() uses
             out[o.key] = {'smp': SAMPLERS.get(m.sample_alpha.__name__, m.sample_alpha.__name__), 'T': T,
                           'h': int(bool(m.hard_softmax)), 'tr': int(bool(m.training)), 'theta': cols,
                           'amax': (torch.argmax(al, dim=0).reshape(-1).tolist()),
@@ -591,7 +593,7 @@ def _oracle(chk, case, res):
             for rep in o['rep']:
                 if rep != o['amax'][:len(rep)]:
                     chk.violation('C10:%s:summary-differs-from-argmax' % CLASSNAME[cls],
-                                  'summary() reports alternative %s, arg-max of alpha is %s' % (rep, o['amax']),
+                                  'summary() / best_layer_index() reports alternative %s, arg-max of alpha is %s' % (rep, o['amax']),
                                   {'kind': 'walk', 'case': case, 'at_op': i - 1, 'object': key})
     last = obs[-1]
     for key, cls, prec, _ in res['objs']:
@@ -698,7 +700,7 @@ def run(chk):
     _process(chk, cases, results)
     if chk.proof_broken or chk.corr_disagreements:
         # escalate the failing-input search
-        more = _gen_cases(rng, 6000 * q, 2000 * q, 500 * q, 500 * q)
+        more = _gen_cases(rng, 4000 * q, 1500 * q, 300 * q, 300 * q)
         res2 = common.pmap(_exec_case, more)
         for case, res in zip(more, res2):
             if 'error' in res:
@@ -729,7 +731,7 @@ def replay(data):
             self.violations.append((key, what, case))
     rec = _Rec()
     _oracle(rec, case, res)
-    hits = [v for v in rec.violations if v[0] == data.get('key')] or rec.violations
+    hits = [v for v in rec.violations if v[0] == data.get('key')]
     for key, what, cs in hits[:5]:
         print('%s: %s (object %s, after op %s)' % (key, what, cs.get('object'), cs.get('at_op')))
     print('ops:', [_render_op(op, c.get('object', 'q')) or 'A:..' for op in case['ops']])
